@@ -291,7 +291,24 @@ def gen_history(rng, cid, neps=3, nitems=6, kinds=('chain', 'unseg', 'orphan', '
     eps = []
     base_dev = rng.below(65536)
     for i in range(neps):
-        eps.append((base_dev if rng.chance(1, 2) else rng.below(65536), rng.below(4)))
+        k = rng.below(4)
+        if k == 0 or not eps:
+            eps.append((base_dev if rng.chance(1, 2) else rng.below(65536), rng.below(4)))
+        elif k == 1:
+            # bit-neighbour of an existing endpoint in the 24-bit (device, stream) space: one or two flipped bits
+            d, s = rng.choice(eps)
+            v = (d << 8 | s)
+            for _ in range(rng.range(1, 2)):
+                v ^= 1 << rng.below(24)
+            eps.append((v >> 8, v & 255))
+        elif k == 2:
+            # ids that collide under sloppy packings / hashes: stream bits moved into the device id and vice versa
+            d, s = rng.choice(eps)
+            sh = rng.choice([0, 4, 8])
+            eps.append(((d ^ (s << sh)) & 0xFFFF, rng.choice([0, s, s ^ 1])) if rng.chance(1, 2) else (((d | (s << sh)) & 0xFFFF), rng.choice([s, 0])))
+        else:
+            d, s = rng.choice(eps)
+            eps.append((d, rng.below(256)) if rng.chance(1, 2) else (rng.below(65536), s))
     eps = list(dict.fromkeys(eps))
     streams = []
     for e in eps:
